@@ -190,6 +190,83 @@ Proof.
       * apply scale_le_upper; [exact Hinv|]. eapply Qcle_trans; [exact Hhi|apply (le_div_pos _ _ _ Hp1 Q4)].
 Qed.
 
+Lemma div_nonpos_neg a c : a <= 0 -> c < 0 -> 0 <= a / c.
+Proof.
+  intros Ha Hc. apply Qcnot_lt_le. intros Hx.
+  pose proof (Qcmult_lt_compat_r _ _ (- c) (neg_opp_pos c Hc) Hx) as H.
+  assert (E : a / c * - c = - a).
+  { transitivity (- (a / c * c)); [ring|]. rewrite div_mul_cancel by (apply neg_ne; exact Hc). reflexivity. }
+  rewrite E, Qcmult_0_l in H.
+  apply Qcopp_le_compat in Ha. apply (Qcle_not_lt _ _ Ha).
+  assert (E0 : - 0 = 0) by ring. rewrite E0. exact H.
+Qed.
+
+(* improper ranges (lo >= 0 or hi <= 0, but no zero bound - a zero bound is a ZeroDivisionError in
+   the implementation): as soon as ONE bound lies on its proper side the factor is positive, and every
+   bound that lies on its proper side is respected; nothing is promised for the others *)
+Theorem normalize_one_sided lr pr ign p k :
+  (fst lr < 0 \/ 0 < snd lr \/ fst pr < 0 \/ 0 < snd pr) ->
+  normalize_scalar lr pr ign p = Some k ->
+  0 < k /\
+  forall t, In t p -> ignored ign t = false ->
+    (length (fst t) = 1%nat ->
+       (fst lr < 0 -> fst lr <= k * snd t) /\ (0 < snd lr -> k * snd t <= snd lr)) /\
+    ((1 < length (fst t))%nat ->
+       (fst pr < 0 -> fst pr <= k * snd t) /\ (0 < snd pr -> k * snd t <= snd pr)).
+Proof.
+  intros Hside. unfold normalize_scalar.
+  destruct (norm_fold ign p (mkExt gen_init_linear gen_init_linear gen_init_higher gen_init_higher)) as [Hle Hcov].
+  fold (norm_loop ign p) in Hle, Hcov. set (a := norm_loop ign p) in *.
+  destruct Hle as [Hlmin [Hlmax [Hpmin Hpmax]]]. cbn [e_lmin e_lmax e_pmin e_pmax] in Hlmin, Hlmax, Hpmin, Hpmax.
+  unfold gen_init_linear, gen_init_higher in *.
+  set (inv := gen_inv_scalar (e_lmin a) (e_lmax a) (e_pmin a) (e_pmax a) lr pr).
+  assert (Q1 : e_lmin a / fst lr <= inv).
+  { unfold inv, gen_inv_scalar. eapply Qcle_trans; [|apply gmax_ge_l]. eapply Qcle_trans; [|apply gmax_ge_l]. apply gmax_ge_l. }
+  assert (Q2 : e_lmax a / snd lr <= inv).
+  { unfold inv, gen_inv_scalar. eapply Qcle_trans; [|apply gmax_ge_l]. eapply Qcle_trans; [|apply gmax_ge_l]. apply gmax_ge_r. }
+  assert (Q3 : e_pmin a / fst pr <= inv).
+  { unfold inv, gen_inv_scalar. eapply Qcle_trans; [|apply gmax_ge_l]. apply gmax_ge_r. }
+  assert (Q4 : e_pmax a / snd pr <= inv).
+  { unfold inv, gen_inv_scalar. apply gmax_ge_r. }
+  destruct (Qc_eqb inv 0) eqn:E; [discriminate|]. intros Hk. inversion Hk as [Hk']. clear Hk.
+  apply Qc_eqb_false in E.
+  assert (Hinv : 0 < inv).
+  { assert (H0 : 0 <= inv).
+    { destruct Hside as [H|[H|[H|H]]].
+      - eapply Qcle_trans; [apply (div_nonpos_neg _ _ Hlmin H)|exact Q1].
+      - eapply Qcle_trans; [apply (div_nonneg _ _ Hlmax H)|exact Q2].
+      - eapply Qcle_trans; [apply (div_nonpos_neg _ _ Hpmin H)|exact Q3].
+      - eapply Qcle_trans; [apply (div_nonneg _ _ Hpmax H)|exact Q4]. }
+    destruct (Qcle_lt_or_eq _ _ H0) as [H|H]; [exact H|]. exfalso. apply E. symmetry. exact H. }
+  unfold gen_scale_factor. split.
+  - unfold Qcdiv. rewrite Qcmult_1_l. apply Qcinv_pos. exact Hinv.
+  - intros t Ht Hi. destruct (Hcov t Ht Hi) as [Hlin Hpol]. split; intros Hlen.
+    + destruct (Hlin Hlen) as [Hlo Hhi]. split; intros Hb.
+      * apply scale_ge_lower; [exact Hinv|]. eapply Qcle_trans; [apply (le_div_neg _ _ _ Hb Q1)|exact Hlo].
+      * apply scale_le_upper; [exact Hinv|]. eapply Qcle_trans; [exact Hhi|apply (le_div_pos _ _ _ Hb Q2)].
+    + destruct (Hpol Hlen) as [Hlo Hhi]. split; intros Hb.
+      * apply scale_ge_lower; [exact Hinv|]. eapply Qcle_trans; [apply (le_div_neg _ _ _ Hb Q3)|exact Hlo].
+      * apply scale_le_upper; [exact Hinv|]. eapply Qcle_trans; [exact Hhi|apply (le_div_pos _ _ _ Hb Q4)].
+Qed.
+
+(* REFUTED for improper ranges: a range on one side of zero cannot be met by a positive factor
+   (bias -4 with range (1, 2) ends at -1), and an inverted range (1, -1) makes the factor NEGATIVE:
+   the polynomial handed to the child is the negated one.  The reported energies are still the
+   submitted polynomial's (polyscale_honest needs only k <> 0). *)
+Definition improper_example : hpoly :=
+  [([0%nat], qc 2 1); ([1%nat], qc (-4) 1); ([0%nat; 1%nat; 2%nat], qc 8 1); ([0%nat; 1%nat], qc (-1) 1)].
+
+Theorem normalize_improper_range_refuted :
+  (exists k, normalize_scalar (qc 1 1, qc 2 1) (qc 1 1, qc 2 1) [] improper_example = Some k /\
+             exists t, In t improper_example /\ length (fst t) = 1%nat /\ k * snd t < qc 1 1) /\
+  (exists k, normalize_scalar (qc 1 1, qc (-1) 1) (qc 1 1, qc (-1) 1) [] improper_example = Some k /\ k < 0).
+Proof.
+  split.
+  - exists (qc 1 4). split; [vm_compute; reflexivity|].
+    exists ([1%nat], qc (-4) 1). split; [right; left; reflexivity|]. split; [reflexivity|]. vm_compute. reflexivity.
+  - exists (qc (-1) 1). split; [vm_compute; reflexivity|]. vm_compute. reflexivity.
+Qed.
+
 (* a number r as range means (-|r|, |r|): a proper range whenever r <> 0 *)
 Lemma gabs_pos r : r <> 0 -> 0 < gabs r.
 Proof.
@@ -307,6 +384,24 @@ Proof.
     unfold honest, polyscale_result in *. cbn [r_labels r_rows r_energies]. rewrite Hh, map_map.
     apply map_ext. intros row. rewrite He. unfold gen_unscale, Qcdiv. field. exact Hnz.
   - unfold honest, polyscale_result. reflexivity.
+Qed.
+
+(* the call fails exactly when normalisation is requested with a zero bound *)
+Theorem polyscale_call_raises scalar lr pr ign p :
+  polyscale_call scalar lr pr ign p = None <->
+  scalar = None /\ (fst lr = 0 \/ snd lr = 0 \/ fst pr = 0 \/ snd pr = 0).
+Proof.
+  unfold polyscale_call, zero_bound. destruct scalar as [k|].
+  - split; [discriminate|intros [H _]; discriminate H].
+  - destruct (Qc_eqb (fst lr) 0) eqn:E1; destruct (Qc_eqb (snd lr) 0) eqn:E2;
+      destruct (Qc_eqb (fst pr) 0) eqn:E3; destruct (Qc_eqb (snd pr) 0) eqn:E4; cbn [orb];
+      try (split; [intros _; split; [reflexivity|]|reflexivity];
+           first [left; apply Qc_eqb_true; assumption
+                 |right; left; apply Qc_eqb_true; assumption
+                 |right; right; left; apply Qc_eqb_true; assumption
+                 |right; right; right; apply Qc_eqb_true; assumption]).
+    split; [discriminate|]. intros [_ [H|[H|[H|H]]]]; rewrite H in *;
+      [apply Qc_eqb_false in E1|apply Qc_eqb_false in E2|apply Qc_eqb_false in E3|apply Qc_eqb_false in E4]; congruence.
 Qed.
 
 (* ------------------------------------------------------------------ *)
